@@ -197,7 +197,7 @@ class Engine:
         self.asserts = asserts  # "prove": in-code asserts are obligations; "raise": AssertionError paths
         self.obligations = []  # (clause, formula valid-to-prove)
         self.sources = {}  # qualname -> sha of the source text read
-        self.stubs = {}  # function object -> callable(engine, args, kw, st) -> [(st, value)]
+        self.stubs = {_bit_length: _bit_length_stub}  # function object -> callable(engine, args, kw, st) -> [(st, value)]
         self.symbolic_classes = set()
         self.feas_ms = feas_ms
         self.depth = 0
@@ -206,6 +206,7 @@ class Engine:
         self.bitop_apps = []  # applications of uninterpreted bit functions (for lemma instantiation)
         self.loop_invariants = {}  # (qualname, ordinal) -> callable(engine, env, st) -> z3 Bool
         self.native_ok = set()  # callables that may be executed natively on concrete arguments
+        self.max_unroll = 40
 
     # ------------------------------------------------------------------ helpers
     def feasible(self, st):
@@ -733,7 +734,19 @@ class Engine:
                 for (s, e) in states:
                     for (s2, c) in self.eval(node.test, e, glob, s):
                         if is_sym(c):
-                            raise Undecided(f"while loop {key} with symbolic condition and no invariant")
+                            # no invariant given: bounded unrolling with an unwinding assertion (complete when it discharges)
+                            cb = as_bool(c)
+                            s_in, s_out = s2.assume(cb), s2.assume(z3.Not(cb))
+                            if self.feasible(s_out):
+                                res.append((s_out, clone(e, {})))
+                            if self.feasible(s_in):
+                                if _ >= self.max_unroll:
+                                    self.oblige(f"unwinding@{key[0]}#{key[1]}", s_in, z3.BoolVal(False))
+                                else:
+                                    r = self.exec_loop_body(node.body, clone(e, {}), glob, s_in, outs, loopctr)
+                                    nxt.extend(r["cont"])
+                                    res.extend(r["brk"])
+                            continue
                         if c:
                             r = self.exec_loop_body(node.body, e, glob, s2, outs, loopctr)
                             nxt.extend(r["cont"])
@@ -933,6 +946,24 @@ class Engine:
                 if self.feasible(st_f):
                     out.extend(self.eval(node.orelse, env, glob, st_f))
             return out
+        if (isinstance(node, ast.Call) and isinstance(node.func, ast.Attribute) and isinstance(node.func.value, ast.Name)
+                and node.func.attr in ("append", "insert", "extend", "pop", "clear") and isinstance(env.get(node.func.value.id), list)):
+            # in-place mutation of a raw python list bound to a local name: done functionally and re-bound (all local
+            # aliases of the same object follow), so that forked paths never share a mutated list
+            base = env[node.func.value.id]
+            out = []
+            for (s2, args) in self.eval_list(node.args, env, glob, st):
+                new = list(base)
+                try:
+                    r = getattr(new, node.func.attr)(*args)
+                except IndexError:
+                    self.do_raise("IndexError", s2)
+                    continue
+                for k, v in list(env.items()):
+                    if v is base:
+                        env[k] = new
+                out.append((s2, r))
+            return out
         if isinstance(node, ast.Call):
             out = []
             for (s, fn) in self.eval(node.func, env, glob, st):
@@ -1025,7 +1056,19 @@ class Engine:
                 return [(s, set(v)) for (s, v) in out]
             return out
         if isinstance(node, ast.JoinedStr):
-            return [(st, "<fstring>")]
+            # f-string: formatted natively when every interpolated value is concrete, else an opaque placeholder
+            parts, cur = [], st
+            for v in node.values:
+                if isinstance(v, ast.Constant):
+                    parts.append(str(v.value))
+                    continue
+                rs = self.eval(v.value, env, glob, cur)
+                if len(rs) != 1 or has_sym(rs[0][1]) or v.format_spec is not None:
+                    return [(st, "<fstring>")]
+                cur, val = rs[0]
+                conv = {-1: str, 115: str, 114: repr, 97: ascii}.get(v.conversion, str)
+                parts.append(conv(val))
+            return [(cur, "".join(parts))]
         if isinstance(node, ast.Lambda):
             return [(st, Closure(node, glob, env, env.get("__qual__", "?") + ".<lambda>"))]
         if isinstance(node, ast.Starred):
@@ -1072,7 +1115,7 @@ class Engine:
             return [(st, ContMethod(base, name))]
         if is_sym(base):
             if name == "bit_length":
-                raise Undecided("bit_length of symbolic int")
+                return [(st, BoundMethod(_bit_length, as_int(base)))]
             raise Undecided(f"attribute {name} of symbolic int")
         if isinstance(base, (Closure, BoundMethod)):
             raise Undecided("attribute of closure")
@@ -1251,6 +1294,24 @@ def _as_load(t):
     if isinstance(t, ast.Subscript):
         return ast.Subscript(value=t.value, slice=t.slice, ctx=ast.Load())
     raise Undecided("augassign target")
+
+
+def _bit_length(x):  # placeholder target; the engine's stub below does the work
+    raise NotImplementedError
+
+
+def _bit_length_stub(engine, args, kw, st):
+    """int.bit_length on a symbolic integer: case split on the result n (0..264) with 2**(n-1) <= |x| < 2**n"""
+    (x,) = args
+    ax = z3.If(x >= 0, x, -x)
+    engine.oblige("bit_length-operand-bounded", st, ax < (1 << 264))
+    out = []
+    for n in range(0, 265):
+        c = (ax == 0) if n == 0 else z3.And(ax >= (1 << (n - 1)), ax < (1 << n))
+        s2 = st.assume(c)
+        if engine.feasible(s2):
+            out.append((s2, n))
+    return out
 
 
 class _LoopCtl(Exception):
